@@ -189,8 +189,9 @@ def redirection_table(ctx, prog, R="R05.1", RH="R05.1h"):
             else:
                 ok = x == ("param", 1, hf.local_name(1))
         ctx.ob(RH, "prepare_%s.stores-payload" % hname, ok and len(stores) == 1, hf.loc(0), "child slot <- %s (must be the very file passed in)" % (M.term_str(v) if v else None))
-        # the user's file is usually close-on-exec (std opens files that way); when its number already equals the target stream number the child
-        # skips dup2 (R05.3 guard), so the flag must have been cleared before the file is handed to the child
+        # the platform-neutral set-up marks a user-supplied file inheritable before it becomes a child end: on Windows CreateProcess hands
+        # over only inheritable handles (R05.7); on Unix the call leaves the descriptor flags alone (R08.1) and the stream is put in place by
+        # dup2, whose copy is never close-on-exec
         Th = M.Terms(hf)
         isfile = lambda u: M.noref(M.strip(u, also=("<std::rc::Rc<T, A> as std::ops::Deref>::deref", "<std::rc::Rc<T> as std::ops::Deref>::deref", "<std::rc::Rc<T, A> as std::convert::AsRef<T>>::as_ref"))) == ("param", 1, hf.local_name(1))
         oke = try_ok_edges(hf, Th, lambda c: c[0] == "call" and c[1].endswith("set_inheritable") and const_of(c[2][1]) == 1 and isfile(c[2][0]))
@@ -198,8 +199,7 @@ def redirection_table(ctx, prog, R="R05.1", RH="R05.1h"):
               if s_["k"] == "assign" and s_["p"]["l"] == 2 and s_["p"]["proj"] and s_["p"]["proj"][0]["k"] == "deref"]
         oki = bool(oke) and bool(sb) and all(dominated_by_edges(hf, b_, oke) for b_ in sb)
         ctx.ob(RH, "prepare_%s.inheritable-before-store" % hname, oki, hf.loc(0),
-               "a user-supplied file becomes a child end only after set_inheritable(&file, true) succeeded: when its descriptor number already equals the "
-               "target stream number the child does not dup2 it, and a close-on-exec file would be closed by exec instead of being the child's stream")
+               "a user-supplied file becomes a child end only after set_inheritable(&file, true) succeeded (on Windows a handle that is not inheritable never reaches the child)")
     ru = prog.fns[helper["reuse"]]
     Tr = M.Terms(ru)
     # dest <- Rc::clone(src.unwrap()), src filled from get_standard_stream(src_id) only when it is None
